@@ -566,9 +566,9 @@ type load struct {
 	// association join; a sibling query (the same, with the last join replaced by
 	// Sibling, or by one more filler join when Sibling is nil) is derived from the
 	// same handle BEFORE this one runs, then both run and both are checked.
-	Finisher    string    `json:"finisher,omitempty"`     // struct shape: take (default) | first | last
-	Batch       int       `json:"batch,omitempty"`        // slices: FindInBatches with this batch size
-	ArrayExtra  int       `json:"array_extra,omitempty"`  // array shapes: spare elements beyond the rows expected
+	Finisher   string `json:"finisher,omitempty"`    // struct shape: take (default) | first | last
+	Batch      int    `json:"batch,omitempty"`       // slices: FindInBatches with this batch size
+	ArrayExtra int    `json:"array_extra,omitempty"` // array shapes: spare elements beyond the rows expected
 	// Reload with a change: the second load into the same destination uses these
 	// conditions instead (parallel to Preloads; Set=false keeps the entry's) and,
 	// with ReloadScoped, drops the root Unscoped(): children stop qualifying
@@ -2055,11 +2055,15 @@ func checkQuery(d *testdb.DB, g *graph, l load) (string, bool) {
 			return fmt.Sprintf("Count derived from the shared handle failed: %v", err), false
 		}
 	}
-	msg, nt := checkQueryWith(d, g, l, func(_ load, dest reflect.Value) ([]reflect.Value, error) { return execQuery(q1, g.fam.m(l.Root), l, dest) })
+	msg, nt := checkQueryWith(d, g, l, func(_ load, dest reflect.Value) ([]reflect.Value, error) {
+		return execQuery(q1, g.fam.m(l.Root), l, dest)
+	})
 	if msg != "" {
 		return "query derived first from the shared handle: " + msg, false
 	}
-	if msg2, _ := checkQueryWith(d, g, l2, func(_ load, dest reflect.Value) ([]reflect.Value, error) { return execQuery(q2, g.fam.m(l.Root), l2, dest) }); msg2 != "" {
+	if msg2, _ := checkQueryWith(d, g, l2, func(_ load, dest reflect.Value) ([]reflect.Value, error) {
+		return execQuery(q2, g.fam.m(l.Root), l2, dest)
+	}); msg2 != "" {
 		return "sibling query derived from the shared handle (" + l2.String() + "): " + msg2, false
 	}
 	return "", nt
